@@ -730,6 +730,10 @@ pub fn run(ctx: &Ctx) -> Report {
         dfs::<Pair, SpyVec<Pair>>(ctx, &mut rep, None, cap, depth - 1, &mut unit, &p, false);
         dfs::<Whole, Vec<Whole>>(ctx, &mut rep, None, cap, depth - 2, &mut unit, &p, false);
     }
+    // SmallVec backing that has spilled to the heap (more than 4 items) before the enumeration starts
+    for p in [vec![Op::Push; 5], vec![Op::Push, Op::Push, Op::Push, Op::Push, Op::Push, Op::Push, Op::PopFirst]] {
+        dfs::<Pair, SmallVec<[Pair; 4]>>(ctx, &mut rep, None, cap, depth - 2, &mut unit, &p, false);
+    }
     // rejected pushes on the object itself (caught, then the history goes on), one level shallower
     dfs::<Pair, SpyVec<Pair>>(ctx, &mut rep, None, cap, depth - 1, &mut unit, &[], true);
     dfs::<Whole, Vec<Whole>>(ctx, &mut rep, None, cap, depth - 2, &mut unit, &[], true);
